@@ -229,7 +229,7 @@ Qed.
 
 (* the newline computation of _read_content *)
 Definition nl_res_of (line_endings : option pv) (enc : option bytes) (content : bytes) : res bytes :=
-  if pv_truthy line_endings then
+  if pv_given line_endings then
     match line_endings with
     | Some (VStr le) => get_newline_for_type le enc
     | _ => Err EValue
@@ -243,7 +243,7 @@ Lemma nl_res_spec : forall le enc content,
   end.
 Proof.
   intros le enc content. unfold nl_res_of.
-  destruct (pv_truthy le).
+  destruct (pv_given le).
   - destruct le as [[z|s]|]; try (left; reflexivity).
     destruct (get_newline_for_type s enc) eqn:E; [eapply get_newline_nonempty|eapply get_newline_err]; eauto.
   - pose proof (guess_spec content enc) as G.
@@ -1021,7 +1021,7 @@ Qed.
 Lemma nl_res_has_lf : forall le enc content nl, nl_res_of le enc content = Ok nl -> 1 <= count_lf nl.
 Proof.
   intros le enc content nl. unfold nl_res_of.
-  destruct (pv_truthy le).
+  destruct (pv_given le).
   - destruct le as [[z|s]|]; try discriminate. apply get_newline_has_lf.
   - destruct (guess_line_endings_bytes content enc) as [p|e] eqn:G; cbn [bind]; [|discriminate].
     intros H. injection H as <-. eapply guess_has_lf; eauto.
